@@ -179,3 +179,15 @@ Qed.
 
 Lemma convert_table e : convert (RPy e) = RLex /\ convert RPrem = RPrem /\ convert RLex = RLex.
 Proof. split; [apply convert_py|split; reflexivity]. Qed.
+
+(* the same two facts for files read with skip_shebang=True *)
+Theorem read_file_terminates orc s : read_many_file orc s <> OutOfFuel.
+Proof.
+  unfold read_many_file. destruct (starts_with shebang_mark s); [|apply read_terminates].
+  destruct (drop_through shebang_end s) as [r|]; [|discriminate]. apply (read_terminates orc r).
+Qed.
+Theorem read_file_outcome_class orc s : forall e, read_many_file orc s <> PyErr e.
+Proof.
+  intros e. unfold read_many_file. destruct (starts_with shebang_mark s); [|apply read_outcome_class].
+  destruct (drop_through shebang_end s) as [r|]; [|discriminate]. apply (read_outcome_class orc r).
+Qed.
